@@ -1,6 +1,9 @@
 """C05: concurrent producers/consumers. Real threads gated at the cfg(walrus_verif) scheduling
 points run seeded / enumerated schedules; TLC decides linearizability of every recorded
-call/ret history against the contract (Trace_WalrusConc)."""
+call/ret history against the contract (Trace_WalrusConc).
+Design stage (props_concdesign): the concurrent design spec WalrusConcDesign is model-checked over
+all interleavings of small thread programs and TLC-generated gate-level schedules are replayed on
+the engine with the strict controller; engine vs model = MODEL-DRIFT, engine vs contract = VIOLATION."""
 import json
 import os
 import random
@@ -11,6 +14,7 @@ import time
 from . import common as C
 from . import engine as E
 from . import props_engine as PE
+from . import props_concdesign as CD
 
 
 def gen_job(r, jid, cfg):
@@ -244,6 +248,9 @@ def c05(tier):
         jobs.append(b)
     for i in range(n):
         jobs.append(gen_job(r, "cj%d" % i, cfgs[i % len(cfgs)]))
+    # design stage: TLC on WalrusConcDesign (pure TLC), its schedules join the jobs run on the engine
+    design = CD.prepare(tier)
+    jobs += design["jobs"]
     groups = run_jobs(jobs, "c05")
     missing = [j["id"] for j in jobs if j["id"] not in groups]
     if len(missing) > len(jobs) // 10:
@@ -260,6 +267,11 @@ def c05(tier):
         ck.report({"id": g, "cfg": byid[g]["cfg"], "ops": [], "job": byid[g]}, groups[g], v, div, [],
                   extra={"history": [_strip(e) for e in groups[g]][:80], "schedule_taken": sched.get("trace", [])[:200]})
     ck.unattributed = max(0, len(failed) - 60)
+    dcov, drift_lines = CD.conformance(design, groups, verd)
+    for l in drift_lines:
+        print(l)
+    if dcov["model_drift"] > len(drift_lines):
+        print("MODEL-DRIFT: C05 WalrusConcDesign: %d more schedules differ from the model" % (dcov["model_drift"] - len(drift_lines)))
     steps = [e.get("steps", 0) for g in groups.values() for e in g if e.get("ev") == "note" and e.get("what") == "schedule"]
     distinct = len(set(json.dumps(next((e.get("trace") for e in g if e.get("what") == "schedule"), None)) for g in groups.values()))
     coverage = {
@@ -274,11 +286,47 @@ def c05(tier):
                 "from a schedule list, then random) decides which thread runs; the call/ret history plus a quiescent drain is checked by TLC "
                 "for linearizability against WalrusAPI; distinct = distinct gate sequences taken",
         "gate_steps_total": sum(steps), "contract_model": mc, "trace_tlc_states": states, "rejected_traces": len(failed),
+        "design_rule": "spec/WalrusConcDesign.tla: one process per client thread, one atomic action per code segment between two "
+                       "gates (split where a segment can block on the writer mutexes, the column lock or the batch flag), 1 topic, "
+                       "blocks of 1 and 2 entries, StrictlyAtOnce; TLC checks exactly-once delivery after a drain, per-reader order, "
+                       "batch contiguity, cursor exactness, the locks held at every gate and deadlock freedom over ALL interleavings "
+                       "of the bounded programs (lock-granular scheduler) and emits every gate-level schedule with a bounded number "
+                       "of preemptions (gate-atomic scheduler) together with the predicted result of every call; a stratified "
+                       "selection is replayed on the engine under the strict controller (one thread released at a time, every other "
+                       "thread parked) and compared gate by gate and result by result (MODEL-DRIFT), the history is validated "
+                       "against the contract like every other schedule (VIOLATION)",
     }
+    coverage.update(design["coverage"])
+    coverage.update(dcov)
     return ck.finish("model_checking", coverage, PE.COMMON_ASSUMPTIONS + [
         "schedules are sampled (seeded), not exhaustive; interleavings are at the granularity of the gates, code between two gates runs "
         "without interruption by a gated thread only if it holds a lock the others need",
-        "an empty read result is accepted anywhere in a concurrent history"])
+        "an empty read result is accepted anywhere in a concurrent history",
+        "design stage: programs are bounded (<= 3 client threads, <= 6 entries, 1 topic, unbounded byte budget, checkpoint=true, "
+        "StrictlyAtOnce); sizes are abstract (a block holds 1 or 2 entries); the index, map and counter locks are leaf locks and not "
+        "modelled; outcomes that need a reader between two publications of one batch_write (inside one gate-to-gate segment) are "
+        "model-checked but cannot be replayed with the existing gates"])
+
+
+def replay(pid, path):
+    """`./check C05 --replay <path>`: runs the stored job (threads, schedule) again and validates its history."""
+    with open(path) as f:
+        r = json.load(f)
+    job = r.get("behaviour", {}).get("job")
+    if not job:
+        raise C.ToolError("replay file %s holds no job" % path)
+    groups = run_jobs([job], "c05replay")
+    if job["id"] not in groups:
+        raise C.ToolError("replay: the driver produced no history for %s" % job["id"])
+    verd, _, _ = validate_conc(groups, tag="c05replayv")
+    v = verd[job["id"]]
+    sched = next((e for e in groups[job["id"]] if e.get("ev") == "note"), {})
+    if v["ok"]:
+        print("replay %s: history accepted by the contract" % job["id"])
+        return C.EXIT_OK
+    print("VIOLATION property=%s replay=%s" % (pid, path))
+    C.log("  first unmatched event %d: %s" % (v["index"], json.dumps(_strip(v["first_unmatched"]))))
+    return C.EXIT_VIOLATION
 
 
 REGISTRY = {"C05": c05}
